@@ -20,14 +20,6 @@ pub fn c19_play<const STEP: usize, const KIND: u8, const PART: u8>(inp: &Inp) ->
     vassume!(inv_rules(&s));
     set_focus!(s.a_sq);
     // (step-3 lists/queries run with the abstract move_piece: its own panic-freedom is part of c19_apply)
-    #[cfg(kani)]
-    if STEP == 3 {
-        unsafe {
-            crate::stubs::X_SAME = s.prev[2].p1;
-            crate::stubs::X_OTHER = s.prev[2].t[0];
-            crate::stubs::EXPECT_ON = false;
-        }
-    }
     let gs = build_state(&s);
     let mut wit = false;
     if PART == 0 {
@@ -60,14 +52,25 @@ pub fn c19_play<const STEP: usize, const KIND: u8, const PART: u8>(inp: &Inp) ->
         // an action the ENGINE offers (entry k of the rule-only list, k symbolic; under the focus
         // projection these are the entries from the symbolic focus square plus all pull entries)
         let l = gs.valid_actions_no_rep();
-        let k = (s.aux % 9) as usize;
-        vassume!(k < l.len());
-        let a = l[k];
-        let pv = gs.trapped_animal_for_action(&a);
-        let ns = gs.take_action(&a);
-        let _ = ns.transposition_hash();
-        wit = pv.is_some(); // C19 witness: an offered step that captures
-        std::mem::forget(ns);
+        #[cfg(kani)]
+        {
+            let k = (s.aux % 9) as usize;
+            vassume!(k < l.len());
+            let a = l[k];
+            let pv = gs.trapped_animal_for_action(&a);
+            let ns = gs.take_action(&a);
+            let _ = ns.transposition_hash();
+            wit = pv.is_some(); // C19 witness: an offered step that captures
+            std::mem::forget(ns);
+        }
+        // natively the list is not projected: every offered action is previewed and applied
+        #[cfg(not(kani))]
+        for a in l.iter() {
+            let pv = gs.trapped_animal_for_action(a);
+            let ns = gs.take_action(a);
+            let _ = ns.transposition_hash();
+            wit |= pv.is_some();
+        }
         std::mem::forget(l);
     } else {
         vassume!(model::pass_legal(s.step, s.pending));
